@@ -29,9 +29,10 @@ SPEC = dict(
     ],
     rule="one call diff(e, x, cache) per op line; e = random real expression built through the public API and dumped "
          "(families = tags: rational, elementary, inverse, radical, sympow, special, fsym, abs, mixed, shared-subterm "
-         "(a subterm occurring several times: exercises the visited table), binder-2nd / binder-3rd (Derivative and "
-         "Subs nodes as *inputs*: higher derivatives of expressions with function symbols)); x in {x,y,z} mostly "
-         "occurring, ~8% absent; cache flag random. distinct = distinct op lines; non-trivial = all. impl_stats: "
+         "(a subterm occurring several times: exercises the visited table), binder (Derivative and Subs nodes as "
+         "*inputs*, built structurally without calling diff/subs), poly-univariate / poly-multivariate (UIntPoly, "
+         "URatPoly, UExprPoly, MIntPoly: ops upoly/mpoly), piecewise (op pw)); x in {x,y,z} mostly occurring, ~8% "
+         "absent; cache flag random; corpus/C10/rules.ops pins one op per coded rule and every finding. distinct = distinct op lines; non-trivial = all. impl_stats: "
          "value_checked_exact / value_checked_numeric / value_not_checked = how the value oracle judged each case, "
          "value_*_points_ok / *_discarded_* = sample points, unsup:* = why a point kind was unavailable, "
          "absent_symbol_cases.",
@@ -39,6 +40,9 @@ SPEC = dict(
         "Lean certificate: inputs containing Derivative/Subs nodes, Piecewise, polynomial classes, Sign/Floor/Max... are "
         "answered SKIP:unsupported-* (value oracle only); results whose atoms were re-canonicalised by the library "
         "(e.g. asin(2x)' = 2/sqrt(1-4x^2), x**y * x**-1 merged) are SKIP:atoms-differ (~3% of the generated cases)",
+        "normal forms whose estimated size exceeds the guard of Model/Diff.lean (`affordable`; unreduced fractions "
+        "blow up on products of sums under negative exponents) are SKIP:too-large (~2% of thorough cases)",
+        "the polynomial-class mirrors upolyDiff/mpolyDiff are executable models compared op by op; no theorem about them",
         "diff_correct_partial is over the reals and for the listed functions; special functions (gamma, erf, zeta, "
         "polygamma, beta, lambertw, incomplete gamma), abs, atan2, atanh/acoth/asech/acsch/asec/acsc/acot and "
         "FunctionSymbol chain rule have extracted rules compared by certificate + numeric oracle only",
